@@ -37,6 +37,8 @@ const (
 	NumKeys = 16
 )
 
+var installed *Params
+
 var keys []chainkd.XPrv
 var outsiderKey chainkd.XPrv
 
@@ -95,6 +97,13 @@ func (p Params) Normalize() Params {
 // reads them from globals, so one process runs one parameter set at a time.
 func (p Params) Install() {
 	p = p.Normalize()
+	// nodes of earlier cases keep idle goroutines that may still read the globals: do not write
+	// when nothing changes (checks built with the race detector use one parameter set per process)
+	if installed != nil && *installed == p {
+		return
+	}
+	pc := p
+	installed = &pc
 	var fed []chainkd.XPub
 	for i := 0; i < p.Validators; i++ {
 		fed = append(fed, keys[i].XPub())
